@@ -9,6 +9,7 @@ import (
 	"github.com/glebziz/fs_db"
 	"github.com/glebziz/fs_db/internal/model"
 	"github.com/glebziz/fs_db/internal/utils/ptr"
+	"github.com/glebziz/fs_db/internal/verifhook"
 )
 
 func (u *UseCase) GetKeys(ctx context.Context) ([]string, error) {
@@ -34,6 +35,7 @@ func (u *UseCase) GetKeys(ctx context.Context) ([]string, error) {
 		return nil, fmt.Errorf("file repository get files: %w", err)
 	}
 
+	verifhook.At("keys.afterLookup")
 	keys := make([]string, 0, len(files))
 	for _, file := range files {
 		_, err = u.cfRepo.Get(ctx, file.ContentId)
